@@ -69,12 +69,13 @@ type Sched struct {
 	KeepTrace  bool
 	StepHook   func(step uint64, t *Task)
 	// Forced schedule (replay of an explicit schedule); falls back to PRNG.
-	Forced   []string
-	forcedAt int
-	Hazards  int // two auto-registrations with one base name in one step
-	regStep  map[string]uint64
-	Switches uint64
-	start    time.Time
+	Forced      []string
+	forcedAt    int
+	Hazards     int // two auto-registrations with one base name in one step
+	HazardNames map[string]int
+	regStep     map[string]uint64
+	Switches    uint64
+	start       time.Time
 }
 
 // New creates a scheduler. Must be called inside the bubble.
@@ -198,8 +199,15 @@ func (s *Sched) registerLocked(gid uint64, base string, auto bool) *Task {
 		name = fmt.Sprintf("%s#%d", base, n)
 	}
 	if auto {
-		if st, ok := s.regStep[base]; ok && st == s.step && s.step > 0 {
+		if st, ok := s.regStep[base]; ok && st == s.step && s.step > 0 && !strings.Contains(base, ":kv.iter(") {
+			// two goroutines with one name in one step: which is which is not decided by the PRNG.
+			// (kv.iter names carry both bounds of the iteration: equal names are identical requests,
+			// e.g. two empty partitions after border adjustment, and therefore interchangeable.)
 			s.Hazards++
+			if s.HazardNames == nil {
+				s.HazardNames = map[string]int{}
+			}
+			s.HazardNames[base]++
 		}
 		s.regStep[base] = s.step
 	}
